@@ -189,12 +189,14 @@ def parse_result(out, rc, timed_out):
             r['status'] = 'pass'
     elif 'VERIFICATION:- FAILED' in out:
         real = [c for c in r['failed_checks'] if not c.startswith('unwinding assertion')]
-        if real:
+        if 'CBMC failed' in out or 'out of memory' in out or 'CBMC timed out' in out:
+            r['status'] = 'oom'          # the solver did not finish: a tool limit, never a verdict
+        elif real:
             r['status'] = 'fail'
         elif r['failed_checks']:
             r['status'] = 'unwind'
         else:
-            r['status'] = 'fail'
+            r['status'] = 'tool-error'   # FAILED without any failed check: not a verdict either
     elif re.search(r'error(\[E\d+\])?:', out) and 'could not compile' in out:
         r['status'] = 'compile-error'
     elif 'no harnesses matched' in out or 'No proof harnesses' in out:
